@@ -35,6 +35,9 @@ impl DirIterNoDots {
     pub fn next(&mut self) -> (r: Option<Result<DirEntry, Errno>>)
         ensures r matches Some(Ok(d)) ==> entry_name(d.name()),
             r is None ==> final(self).exhausted(),
+            // A8b (rustix 0.38 fs/dir.rs): getdents64 failing with ENOENT (directory deleted under the scan) ends
+            // the stream instead of yielding an error
+            r matches Some(Err(e)) ==> e.raw != libc::ENOENT,
     { unimplemented!() }
 }
 pub fn into_iter_shim<T>(t: T) -> (r: T) ensures r == t { t }
